@@ -211,7 +211,7 @@ def next_utf8_rule(run, ctx):
         run.violation(fam, label, "anchor-missing/params", w, "anchor-missing: next_utf8(text, i) expected")
         return
     TEXT, I = params
-    paths = S.paths_of(fn["body"])
+    paths = S.paths_of(fn["body"], combinators=True)
     n = 0
     for p in paths:
         v = S.ret_value(p)
